@@ -29,6 +29,7 @@ pub fn all() -> Vec<(&'static str, RunFn)> {
         ("mld-record", check::<MldRec>),
         ("dhcpv4", check::<Dhcp>),
         ("ieee802154", check::<I154>),
+        (I154_OUTSIDE, check_154_outside),
         ("sixlowpan-frag", check::<SixFrag>),
         ("sixlowpan-nhc-ext", check::<NhcExt>),
     ]
@@ -1115,6 +1116,113 @@ impl WireType for I154 {
     fn fields() -> Vec<(usize, usize)> {
         vec![(0, 1), (1, 2), (2, 3)]
     }
+}
+
+/// Known finding `ieee802154-emit-single-layout` (known_findings.txt): Ieee802154Repr::buffer_len /
+/// emit know ONE addressing layout, Repr::parse follows Frame::addr_present_flags.  This oracle type
+/// takes parsable frames whose representation is OUTSIDE that layout (`!I154::wf`: no destination PAN
+/// id, an absent address, security enabled, frame types without addressing fields, version 2015 /
+/// reserved) and runs parse -> emit -> compare: a re-emission that depends on the old buffer contents,
+/// does not parse, or parses to another representation is reported under exactly the class
+/// `ieee802154-reparse-outside-emit-layout` (the known finding; the check prints it and exits 0).  A
+/// panic of emit, and any mismatch of a frame INSIDE the layout (type `ieee802154`), are other classes
+/// = violations.  The type is left out of the `wire-oracle` stream (which expects `ok`).
+pub const I154_OUTSIDE: &str = "ieee802154-outside-layout";
+pub const I154_KNOWN_CLASS: &str = "ieee802154-reparse-outside-emit-layout";
+
+fn gen_154_frame(r: &mut Rng) -> Vec<u8> {
+    // frame control dictionary aimed at the classes the Coq refutations name
+    let (ftype, sec, dam, sam, pic, ver): (u8, bool, u8, u8, bool, u8) = match r.below(8) {
+        0 => (0, false, 0, *r.pick(&[2u8, 3]), false, *r.pick(&[0u8, 1])), // beacon without destination (2006 beacon 00 90 …)
+        1 => (2, false, 0, 0, false, *r.pick(&[0u8, 1])),                  // acknowledgement: no addressing fields
+        2 => (*r.pick(&[1u8, 3]), true, *r.pick(&[2u8, 3]), *r.pick(&[2u8, 3]), r.chance(1, 2), *r.pick(&[0u8, 1])), // security enabled
+        3 => (*r.pick(&[1u8, 3, 0]), false, *r.pick(&[0u8, 2, 3]), *r.pick(&[0u8, 2, 3]), r.chance(1, 2), 2), // version 2015: 14 layouts
+        4 => (1, false, *r.pick(&[2u8, 3]), 0, false, *r.pick(&[0u8, 1])), // no source address
+        5 => (1, false, *r.pick(&[2u8, 3]), *r.pick(&[2u8, 3]), r.chance(1, 2), 3), // reserved version
+        6 => (*r.pick(&[5u8, 6, 7, 4]), false, *r.pick(&[0u8, 2, 3]), *r.pick(&[0u8, 2, 3]), r.chance(1, 2), r.below(3) as u8), // other frame types
+        _ => (r.below(8) as u8, r.chance(1, 4), *r.pick(&[0u8, 2, 3]), *r.pick(&[0u8, 2, 3]), r.chance(1, 2), r.below(4) as u8),
+    };
+    let fc0 = ftype | if sec { 0x08 } else { 0 } | if r.chance(1, 4) { 0x10 } else { 0 } | if r.chance(1, 2) { 0x20 } else { 0 } | if pic { 0x40 } else { 0 };
+    let fc1 = (dam << 2) | (ver << 4) | (sam << 6) | if ver == 2 && r.chance(1, 4) { 1 } else { 0 };
+    let mut v = vec![fc0, fc1, r.next() as u8];
+    // generous room: both PAN ids, both extended addresses, an auxiliary security header, a MIC
+    let n = 20 + r.below(30) as usize;
+    v.extend(r.bytes(n));
+    if sec {
+        // security control octet: level | key id mode << 3 (placed where the 2003/2006 layout puts it)
+        let at = 3 + if dam >= 2 { 2 + if dam == 3 { 8 } else { 2 } } else { 0 } + if sam >= 2 { (if pic { 0 } else { 2 }) + if sam == 3 { 8 } else { 2 } } else { 0 };
+        if at < v.len() {
+            v[at] = (r.below(8) as u8) | ((r.below(4) as u8) << 3);
+        }
+    }
+    v
+}
+
+fn check_154_outside(r: &mut Rng, _tier: &str, explicit: Option<&Kv>, stats: &mut std::collections::BTreeMap<String, u64>) -> (Vec<crate::oracle::c06::Fail>, Option<String>) {
+    use crate::oracle::c06::Fail;
+    let mut fails: Vec<Fail> = vec![];
+    let frames: Vec<Vec<u8>> = match explicit {
+        Some(kv) => vec![kv.b("frame")],
+        None => (0..6).map(|_| gen_154_frame(r)).collect(),
+    };
+    let mut enc = None;
+    for m in frames {
+        *stats.entry("i154_frames".into()).or_default() += 1;
+        let y = match guard(|| I154::parse(&m, &I154::gen(&mut Rng::new(0), "quick"))) {
+            None => {
+                fails.push(Fail { class: "ieee802154-parse-panic".into(), detail: format!("parse of {} panicked", hex(&m)) });
+                continue;
+            }
+            Some(None) => continue,
+            Some(Some(y)) => y,
+        };
+        if I154::wf(&y) {
+            continue; // inside the emittable layout: the obligation of type `ieee802154`
+        }
+        *stats.entry("i154_outside_layout".into()).or_default() += 1;
+        let len = match guard(|| y.buffer_len()) {
+            Some(l) => l,
+            None => {
+                fails.push(Fail { class: "ieee802154-outside-layout-reemit-panic".into(), detail: format!("buffer_len panicked for {:?}", y) });
+                continue;
+            }
+        };
+        let mut outs: Vec<Vec<u8>> = vec![];
+        let mut panicked = false;
+        for fill in [0x00u8, 0xff, 0xa5] {
+            let mut b = vec![fill; len];
+            if guard(|| y.emit(&mut Ieee802154Frame::new_unchecked(&mut b[..]))).is_none() {
+                panicked = true;
+                break;
+            }
+            outs.push(b);
+        }
+        if panicked {
+            fails.push(Fail { class: "ieee802154-outside-layout-reemit-panic".into(), detail: format!("{} parses as {:?}; emit into buffer_len() = {} octets panicked", hex(&m), y, len) });
+            continue;
+        }
+        let what = if outs[1] != outs[0] || outs[2] != outs[0] {
+            Some(format!("re-emits as {} into a zero-filled and {} into a 0xff-filled buffer", hex(&outs[0]), hex(&outs[1])))
+        } else {
+            match guard(|| I154::parse(&outs[0], &y)) {
+                None => {
+                    fails.push(Fail { class: "ieee802154-parse-panic".into(), detail: format!("parse of re-emitted {} panicked", hex(&outs[0])) });
+                    continue;
+                }
+                Some(None) => Some(format!("re-emits as {} which does not parse", hex(&outs[0]))),
+                Some(Some(z)) if z != y => Some(format!("re-emits as {} which parses as {:?}", hex(&outs[0]), z)),
+                _ => None,
+            }
+        };
+        if let Some(w) = what {
+            *stats.entry("i154_outside_layout_mismatch".into()).or_default() += 1;
+            if fails.iter().all(|f| f.class != I154_KNOWN_CLASS) {
+                enc = Some(format!("frame={}", hex(&m)));
+                fails.push(Fail { class: I154_KNOWN_CLASS.into(), detail: format!("{} parses as {:?} (outside the layout Repr::emit produces), {}", hex(&m), y, w) });
+            }
+        }
+    }
+    (fails, enc)
 }
 
 // ---------------------------------------------------------------- 6LoWPAN fragment header / NHC extension header
